@@ -566,6 +566,7 @@ impl<const N: usize> IoEx<N> {
                         }
                     }
                     _ => {
+                        generic = true; // Extend<&u8> is a deque operation, not an io one
                         if st.b == 0 {
                             let r = self.call(|b| b.extend(data.iter()));
                             if r.is_some() {
@@ -912,6 +913,7 @@ impl<const N: usize> IoEx<N> {
                 let res = st.rs.resolve(pre_len);
                 let word = st.word.clone();
                 let rs = st.rs;
+                let forget = st.c % 2 == 1;
                 let b: &mut CircularBuffer<N, u8> = &mut self.buf;
                 let r = window(|| {
                     let mut d = std::mem::ManuallyDrop::new(crate::with_range!(rs, |r| b.drain(r)));
@@ -932,7 +934,9 @@ impl<const N: usize> IoEx<N> {
                         }
                     }
                     let l = d.len();
-                    drop(std::mem::ManuallyDrop::into_inner(d));
+                    if !forget {
+                        drop(std::mem::ManuallyDrop::into_inner(d));
+                    }
                     (out, l)
                 });
                 let _ = crate::alloc::take_op_allocs();
@@ -960,7 +964,24 @@ impl<const N: usize> IoEx<N> {
                         if !ok || l != hi - lo {
                             self.fail(cls::DRAIN | cls::RET, format!("drain of a byte buffer yielded the wrong bytes or len (range {a}..{c})"));
                         }
-                        self.model.drain(a..c);
+                        if forget {
+                            // leaked drain (C10) of elements without drop glue: what the buffer still
+                            // holds must come from the old contents, in order, and must not include
+                            // the bytes handed out (identity = value while stamps are distinct)
+                            self.stats.forgets += 1;
+                            let got: Vec<u8> = self.buf.iter().copied().collect();
+                            let old: Vec<u8> = self.model.iter().copied().collect();
+                            let handed: Vec<u8> = sel[..lo].iter().chain(sel[hi..].iter()).copied().collect();
+                            let mut it = old.iter();
+                            let subseq = got.iter().all(|g| it.any(|o| o == g));
+                            let dup = distinct && got.iter().any(|g| handed.contains(g));
+                            if self.buf.len() != got.len() || !subseq || dup {
+                                self.fail(cls::FORGET, format!("after leaking a drain of a byte buffer ({} bytes handed out: {:?}) the buffer holds {:?}; previous contents {:?}", handed.len(), handed, got, old));
+                            }
+                            self.model = got.into_iter().collect();
+                        } else {
+                            self.model.drain(a..c);
+                        }
                     }
                     (Err(_), Err(())) => {}
                     (Ok(_), Err(())) => self.fail(cls::PANIC_SPEC | cls::DRAIN, "drain with an invalid range returned normally".into()),
@@ -968,6 +989,49 @@ impl<const N: usize> IoEx<N> {
                 }
                 generic = true;
                 may_alloc = true;
+            }
+            Op::FillWith => {
+                // fill_with on elements without drop glue; the closure may panic at its k-th call
+                let k = st.b;
+                let base = self.produced;
+                let mut calls = 0usize;
+                let b: &mut CircularBuffer<N, u8> = &mut self.buf;
+                let r = window(|| {
+                    b.fill_with(|| {
+                        calls += 1;
+                        if calls == k {
+                            std::panic::resume_unwind(Box::new(crate::elem::Injected(crate::elem::FaultKind::Closure)));
+                        }
+                        ((base + calls as u64 - 1) % 251) as u8
+                    })
+                });
+                let _ = crate::alloc::take_op_allocs();
+                let made: Vec<u8> = (0..calls.saturating_sub(if r.is_err() { 1 } else { 0 }) as u64).map(|i| ((base + i) % 251) as u8).collect();
+                self.produced += made.len() as u64;
+                match r {
+                    Ok(()) => {
+                        self.model.clear();
+                        let tail = if made.len() > N { made[made.len() - N..].to_vec() } else { made.clone() };
+                        self.model_write(&tail);
+                    }
+                    Err(PanicKind::Injected(_)) => {
+                        self.stats.fault_fired[crate::elem::FaultKind::Closure as usize] += 1;
+                        // C06: a valid sequence with a consistent length: only values the closure
+                        // produced in this call, in order
+                        let got: Vec<u8> = self.buf.iter().copied().collect();
+                        let mut it = made.iter();
+                        let ok = self.buf.len() == got.len() && got.len() <= N && got.iter().all(|g| it.any(|m| m == g));
+                        if !ok {
+                            self.fail(cls::USER_FAULT, format!("after the closure of fill_with panicked at call {k}: buffer holds {:?} (len {}), the closure produced {:?}", got, self.buf.len(), made));
+                        }
+                        self.model = got.into_iter().collect();
+                    }
+                    Err(PanicKind::Other(m)) => self.fail(cls::RET | cls::PANIC_SPEC, format!("fill_with panicked: {m}")),
+                }
+                if k > 0 {
+                    self.stats.fault_configured[crate::elem::FaultKind::Closure as usize] += 1;
+                }
+                generic = true;
             }
             Op::ExtendFromSlice | Op::Fill => {
                 let op = st.op;
@@ -1050,7 +1114,20 @@ impl<const N: usize> IoEx<N> {
                 } else {
                     true
                 };
-                (*b == *c, *c == *b, *b == want[..], b.cmp(c), h1.finish() == h2.finish(), dbg)
+                // one-byte element types whose order is not the unsigned byte order (i8): two
+                // contiguous buffers that differ in the sign of one element
+                let i8ok = if with_debug && !want.is_empty() {
+                    let sa: Vec<i8> = want.iter().map(|x| *x as i8).collect();
+                    let mut sb = sa.clone();
+                    let p = i % sb.len();
+                    sb[p] = sb[p].wrapping_neg().wrapping_sub(1);
+                    let ca: Box<CircularBuffer<N, i8>> = Box::new(sa.iter().copied().collect());
+                    let cb: Box<CircularBuffer<N, i8>> = Box::new(sb.iter().copied().collect());
+                    ca.cmp(&cb) == sa.cmp(&sb) && ca.partial_cmp(&cb) == sa.partial_cmp(&sb) && (*ca == *cb) == (sa == sb)
+                } else {
+                    true
+                };
+                (*b == *c, *c == *b, *b == want[..], b.cmp(c), h1.finish() == h2.finish(), dbg && i8ok)
             });
             let _ = crate::alloc::take_op_allocs();
             match r {
@@ -1379,14 +1456,14 @@ const CONSUMER: &[Op] = &[
     Op::IoRead, Op::IoReadExact, Op::IoReadToEnd, Op::IoReadToString, Op::IoReadVectored, Op::IoBytes, Op::IoFillBuf, Op::IoConsume, Op::IoFillConsume, Op::IoReadUntil,
     Op::IoReadLine, Op::IoTake, Op::IoCopyOut,
 ];
-const GENERIC_P: &[Op] = &[Op::PushBack, Op::PushFront, Op::TryPushBack, Op::TryPushFront, Op::ExtendFromSlice, Op::Fill, Op::IoWrite, Op::IoExtendRef];
+const GENERIC_P: &[Op] = &[Op::PushBack, Op::PushFront, Op::TryPushBack, Op::TryPushFront, Op::ExtendFromSlice, Op::Fill, Op::FillWith, Op::IoWrite, Op::IoExtendRef];
 const GENERIC_C: &[Op] = &[
     Op::PopBack, Op::PopFront, Op::Remove, Op::SwapRemoveBack, Op::SwapRemoveFront, Op::Swap, Op::TruncateBack, Op::TruncateFront, Op::Clear, Op::MakeContiguous, Op::Drain,
     Op::IoRead, Op::IoConsume,
 ];
 const ALL_P: &[Op] = &[
     Op::IoWrite, Op::IoWriteAll, Op::IoWriteVectored, Op::IoWriteFmt, Op::IoFlush, Op::IoCopyIn, Op::IoExtendRef, Op::IoWrite, Op::IoWriteAll, Op::IoCopyIn, Op::PushBack, Op::PushFront,
-    Op::TryPushFront, Op::ExtendFromSlice, Op::Fill,
+    Op::TryPushFront, Op::ExtendFromSlice, Op::Fill, Op::FillWith,
 ];
 const ALL_C: &[Op] = &[
     Op::IoRead, Op::IoReadExact, Op::IoReadToEnd, Op::IoReadToString, Op::IoReadVectored, Op::IoBytes, Op::IoFillBuf, Op::IoConsume, Op::IoFillConsume, Op::IoReadUntil,
@@ -1443,7 +1520,7 @@ pub fn gen_io(seed: u64, prop: &str, run: u64) -> Script {
     let pid = prop.bytes().fold(0u64, |a, b| a * 131 + b as u64);
     let mut rng = Rng::new(mix(&[seed, 2, pid, run]));
     let lays = io_layouts();
-    let generic = matches!(prop, "C01io" | "C09io" | "C11io" | "C20io");
+    let generic = matches!(prop, "C01io" | "C09io" | "C10io" | "C11io" | "C20io");
     let (prod, cons): (&[Op], &[Op]) = if common_only {
         (COMMON_P, COMMON_C)
     } else if generic {
@@ -1561,6 +1638,10 @@ pub fn gen_io(seed: u64, prop: &str, run: u64) -> Script {
             }
             Op::Clear => len = 0,
             Op::Fill => len = n,
+            Op::FillWith => {
+                st.b = if rng.below(2) == 0 { 0 } else { 1 + rng.below(n as u64 + 1) as usize };
+                len = n;
+            }
             Op::ExtendFromSlice => {
                 st.a = io_len(&mut rng, free, n);
                 len = (len + st.a).min(n);
@@ -1570,6 +1651,9 @@ pub fn gen_io(seed: u64, prop: &str, run: u64) -> Script {
                 let sel = st.rs.resolve(len).map(|(a, b)| b - a).unwrap_or(0);
                 let wl = rng.below(sel as u64 + 3) as usize;
                 st.word = (0..wl).map(|_| if rng.below(2) == 0 { b'n' } else { b'b' }).collect();
+                if prop == "C10io" || rng.below(6) == 0 {
+                    st.c = 1; // leak the drain
+                }
                 len -= sel;
             }
             _ => {}
